@@ -1388,6 +1388,9 @@ def oracle_ack_forcing(case, impl):
             elif 0 < off <= 8 and big_rx:
                 # (a packet beyond the reassembly window cannot be held and is ignored: not judged)
                 forced = f"out-of-order data packet seq {d['seq']} (next expected {(lc + 1) % 65536})"
+        elif len(injected) == 1 and injected[0] is not None and injected[0]["type"] == 1 and injected[0]["plen"] == 0 \
+                and lc is not None and prev_established and injected[0]["seq"] == (lc + 1) % 65536:
+            forced = f"FIN in sequence (seq {injected[0]['seq']})"
         elif len(injected) > 1 and lc is not None and prev_established and all(
                 d is not None and d["type"] in (0, 2) and (d["type"] == 2 or d["plen"] > 0) for d in injected):
             # a batch of data / state packets processed by one poll: a packet that was a duplicate before the batch
